@@ -266,17 +266,26 @@ impl HistoryProp for P10 {
         while !sim.outstanding.is_empty() {
             sim.respond(0, 0);
         }
-        for _ in 0..8 {
+        // one connection is accepted per polling call and a 1 MiB answer needs several, so the bound is generous;
+        // the verdict is only taken once the server has gone idle
+        let mut idle = false;
+        for _ in 0..400 {
             sim.drain_all();
             if sim.poll() == PollOut::Idle {
+                idle = true;
                 break;
             }
         }
-        let socks = sim.observe_admissions();
-        let open_accepted = sim.gens.iter().filter(|g| g.admission == Admission::Accepted && !g.client_closed).count();
-        let dead_left = socks.iter().filter(|(_, gi)| gi.map(|g| sim.gens[g].client_closed).unwrap_or(false)).count();
-        if dead_left > 0 {
-            return Some(("dead-connection-not-released".into(), format!("after all answers were supplied and the server went idle, {} closed clients still have a server-side socket ({} open clients)", dead_left, open_accepted)));
+        if !idle {
+            ctx.rep.count("final_settle_bound_hit_no_verdict");
+        } else {
+            let socks = sim.observe_admissions();
+            let open_accepted = sim.gens.iter().filter(|g| g.admission == Admission::Accepted && !g.client_closed).count();
+            let dead_left = socks.iter().filter(|(_, gi)| gi.map(|g| sim.gens[g].client_closed).unwrap_or(true)).count();
+            if dead_left > 0 {
+                return Some(("dead-connection-not-released".into(), format!("after all answers were supplied and the server went idle, {} closed clients still have a server-side socket ({} open clients)", dead_left, open_accepted)));
+            }
+            ctx.rep.count("final_idle_states_without_dead_connections");
         }
         if let Some((step, e)) = sim.api_errors.first() {
             return Some(("polling-failed".into(), format!("at step {}: {}", step, e)));
